@@ -1,4 +1,4 @@
-module spike8
+module spike9
 
 go 1.23
 
